@@ -23,7 +23,7 @@ func propC17(c *Ctx, r *Report) {
 	r.Clauses = append(r.Clauses, "block recursion (E3): the statement walkers of the four backends that collect the globals / calls an entry point uses (interface lists, per-entry-point resource sets) descend into every nested block")
 	c.runBlockWalkers(r, "operands", "backends", inPkgs("spirv/internal/codegen", "msl/internal/codegen", "hlsl/internal/codegen", "glsl/internal/codegen"), nil)
 	r.Clauses = append(r.Clauses, enumMapClause)
-	c.runEnumTables(r, "spirv", "hlsl", "msl", "glsl")
+	c.runInterfaceEnumTables(r, "spirv", "hlsl", "msl", "glsl")
 	r.Clauses = append(r.Clauses, "literal text (E10): no strconv.Parse* / Atoi / fmt.Sscan* call in the frontend receives the raw Value text of a parser.Literal (which keeps the WGSL suffix and may be hexadecimal); numeric text goes through the lowerer's literal parsers, so @workgroup_size(64u), @align(0x10), @id(3u) and suffixed override defaults are not silently replaced by defaults")
 	c.runLiteralRawParse(r, "literal.rawparse", inPkgs("wgsl"), literalRawParseExceptions)
 	r.floor("literal.parses", 25)
